@@ -114,6 +114,7 @@ def check(ctx):
     ctx.rule("R01.3", "validation happens before anything is forwarded; rejection path shape; validate_headers called iff option on")
     ctx.rule("R01.4", "reader/writer framing agreement (body reader table, chunked predicates, chunk literals)")
     ctx.rule("R01.5", "header parse errors close + report and never start a body reader")
+    ctx.rule("R01.6", "Expect: 100-continue is tested on every forwarding path of state_wait_for_request_headers and removed when answered (an interim 100 from upstream would desync responses)")
     m = ctx.model
     it = Interp(m)
     ctx.func(READ, "expected_http_body_size")
@@ -126,9 +127,17 @@ def check(ctx):
     # ---- R01.1
     bad = 0
     cells = 0
+    # status / method representatives: one per class of RFC 9112 6.3, the boundaries of the classes, and - so that a wrong row added
+    # for any particular code or method is seen - every status-like integer and method-like string literal the function itself mentions
+    # (with its neighbours)
+    fn_ebs = m.func(READ, "expected_http_body_size")
+    lit_status = {c.value for c in ast.walk(fn_ebs) if isinstance(c, ast.Constant) and type(c.value) is int and 100 <= c.value <= 599}
+    statuses = sorted({100, 101, 199, 200, 201, 203, 204, 205, 206, 299, 300, 301, 303, 304, 305, 400, 404, 500, 599} | {v + d for v in lit_status for d in (-1, 0, 1) if 100 <= v + d <= 599})
+    lit_methods = {c.value.upper() for c in ast.walk(fn_ebs) if isinstance(c, ast.Constant) and isinstance(c.value, str) and c.value.isalpha() and c.value.isupper() and 3 <= len(c.value) <= 8}
+    methods = sorted({"GET", "HEAD", "CONNECT", "POST", "OPTIONS"} | lit_methods)
     for kind in ("request", "response"):
-        for method in ("GET", "HEAD", "CONNECT"):
-            for status in ((None,) if kind == "request" else (101, 200, 204, 304, 404)):
+        for method in methods:
+            for status in ((None,) if kind == "request" else statuses):
                 for te, cl in itertools.product(TE_CLASSES, CL_CLASSES):
                     want = ref_body_size(kind, method, status, te, cl)
                     h = headers_of(TE_CLASSES[te], CL_CLASSES[cl])
@@ -149,7 +158,7 @@ def check(ctx):
                                  f"returns {got!r}, RFC 9112 6.3 says {want!r}: mitmproxy would frame this message differently from a compliant peer")
                     if cells in (5, 77, 300):
                         ctx.sample({"cell": f"{kind} {method} {status} TE={te} CL={cl}", "result": repr(got), "reference": repr(want)})
-    ctx.require(cells == 378, f"expected 378 framing cells, enumerated {cells}")
+    ctx.require(cells >= 21 * 5 * (1 + 19), f"expected at least {21 * 5 * 20} framing cells, enumerated {cells}")
     if not bad:
         ctx.ok("R01.1", f"{cells} cells equal the RFC 9112 6.3 reference")
 
@@ -159,9 +168,12 @@ def check(ctx):
     te_lists = {"none": [], "chunked": [b"chunked"], "gzip+chunked": [b"gzip, chunked"], "gzip": [b"gzip"], "identity": [b"identity"], "unknown": [b"bogus"],
                 "nonascii-fold": ["chun\u212aed".encode()], "two": [b"chunked", b"chunked"]}
     cl_lists = {"none": [], "valid": [b"12"], "invalid": [b"1e3"], "two-equal": [b"12", b"12"], "leading-zero": [b"012"]}
+    fn_val = m.func(VAL, "validate_headers")
+    val_lit = {c.value for c in ast.walk(fn_val) if isinstance(c, ast.Constant) and type(c.value) is int and 100 <= c.value <= 599}
+    val_statuses = sorted({100, 101, 199, 200, 204, 205, 304, 404} | {v + d for v in val_lit for d in (-1, 0, 1) if 100 <= v + d <= 599})
     for kind in ("request", "response"):
         for http11 in (True, False):
-            for status in ((None,) if kind == "request" else (101, 204, 200)):
+            for status in ((None,) if kind == "request" else val_statuses):
                 for te, cl in itertools.product(te_lists, cl_lists):
                     for badname in (False, True):
                         fields = [(b"Transfer-Encoding", v) for v in te_lists[te]] + [(b"content-length", v) for v in cl_lists[cl]] + [(b"X-Ok", b"1")]
@@ -196,7 +208,7 @@ def check(ctx):
                                      f"validate_headers gives '{got}', the reference says '{want}' (an ambiguous framing would be forwarded / a valid message refused)")
                         if cells2 in (9, 200):
                             ctx.sample({"cell": f"{kind} http11={http11} status={status} TE={te} CL={cl} badname={badname}", "result": got})
-    ctx.require(cells2 == 640, f"expected 640 validation cells, enumerated {cells2}")
+    ctx.require(cells2 >= 2 * 2 * 40 * (1 + 8), f"expected at least {2 * 2 * 40 * 9} validation cells, enumerated {cells2}")
     if not bad:
         ctx.ok("R01.2", f"{cells2} cells: rejection set equals the reference")
     # regex languages
@@ -295,6 +307,69 @@ def check(ctx):
               "requests bypass validate_request", desc="check_invalid validates requests")
     ctx.expect_instances("R01.3", 8)
 
+    # ---- R01.6  Expect: 100-continue is consumed by mitmproxy and never forwarded
+    # mitmproxy answers the expectation itself and has no handling for an interim 100 response from upstream: a forwarded
+    # `Expect: 100-continue` makes a compliant origin send `100 Continue` + the final response, which mitmproxy records/relays as
+    # two final responses (the second is attributed to the next request on the connection - a response desync).
+    swr = ctx.func(REL, "HttpStream.state_wait_for_request_headers")
+
+    def _res(call):
+        f = call.func
+        if isinstance(f, ast.Attribute) and isinstance(f.value, ast.Name) and f.value.id == "self" and m.has(REL, "HttpStream." + f.attr):
+            d = m.func(REL, "HttpStream." + f.attr)
+            # only helpers that deal with the Expect header are seen through (extract-method refactors of the branch)
+            if isinstance(d, (ast.FunctionDef, ast.AsyncFunctionDef)) and any(isinstance(c, ast.Constant) and isinstance(c.value, str) and c.value.lower() in ("expect", "100-continue") for c in ast.walk(d)):
+                return d
+        return None
+
+    def _mentions_expect(text):
+        return "expect" in text.lower() and ("headers" in text or "100-continue" in text)
+
+    def _keep6(e):
+        if e[0] == "cond":
+            return _mentions_expect(e[1])
+        if e[0] == "call":
+            return e[1].endswith("headers.pop") or e[1].endswith("headers.__delitem__")
+        if e[0] == "del":
+            return "headers[" in e[1] and "expect" in e[1].lower()
+        if e[0] == "assign":
+            return e[1] == "self.server_state"
+        return False
+
+    class ExpectSpec(GenericSpec):
+        def events(self, node, st):
+            out = []
+            for ev in super().events(node, st):
+                out.append(ev)
+            # keep the popped key: ('call', '...headers.pop') carries no arguments, so add a marker for the expect key
+            for n in ast.walk(node) if not isinstance(node, (ast.If, ast.While, ast.For, ast.Try, ast.With, ast.FunctionDef)) else []:
+                if isinstance(n, ast.Call) and isinstance(n.func, ast.Attribute) and n.func.attr == "pop" and norm(n.func.value).endswith("request.headers") and n.args and isinstance(n.args[0], ast.Constant) and str(n.args[0].value).lower() == "expect":
+                    out.append(("drop-expect",))
+                if isinstance(n, ast.Delete):
+                    for t in n.targets:
+                        if isinstance(t, ast.Subscript) and norm(t.value).endswith("request.headers") and isinstance(t.slice, ast.Constant) and str(t.slice.value).lower() == "expect":
+                            out.append(("drop-expect",))
+            return out
+
+    tr6, _ = traces_of(swr, ExpectSpec(keep=lambda e: e[0] == "drop-expect" or _keep6(e), resolver=_res, record_conds=True))
+    forwards = [t for t, how, st in tr6 if how == "return" and any(e[0] == "assign" and e[1] == "self.server_state" for e in t)]
+    ctx.require(forwards, "state_wait_for_request_headers: no path arms server_state (anchor changed)")
+    ctx.paths += len(tr6)
+    unsafe = []
+    for t in forwards:
+        dropped = ("drop-expect",) in t
+        tests = [e for e in t if e[0] == "cond" and _mentions_expect(e[1])]
+        absent = any(not e[2] and "100-continue" in e[1] or (not e[2] and "in " in e[1]) for e in tests)
+        if not (dropped or (tests and absent)):
+            unsafe.append(t)
+    ctx.check(not unsafe, "R01.6", (REL, "HttpStream.state_wait_for_request_headers", swr), "Expect: 100-continue consumed before the request is forwarded",
+              f"{len(unsafe)} of {len(forwards)} forwarding path(s) neither test the request's Expect header nor remove it: `Expect: 100-continue` reaches the upstream server, "
+              "whose interim 100 response mitmproxy would relay/record as a final response (response desync)", desc=f"{len(forwards)} forwarding paths test or strip Expect")
+    sends100 = [t for t in forwards if any(e[0] == "cond" and e[2] and "100-continue" in e[1] for e in t)]
+    ctx.check(bool(sends100) and all(("drop-expect",) in t for t in sends100), "R01.6", (REL, "HttpStream.state_wait_for_request_headers", swr), "Expect header removed when mitmproxy answers 100 Continue itself",
+              "on a path where the expectation is answered by mitmproxy the header is not removed from the forwarded request", desc="expect header popped on the 100-continue path")
+    ctx.expect_instances("R01.6", 2)
+
     # ---- R01.4
     itr = Interp(m, externals={"ChunkedReader": lambda: "Chunked", "Http10Reader": lambda: "Http10", "ContentLengthReader": lambda n: ("ContentLength", n)})
     for arg, want in ((None, "Chunked"), (-1, "Http10"), (0, ("ContentLength", 0)), (12, ("ContentLength", 12))):
@@ -384,6 +459,10 @@ def last_attr_text(s: str) -> str:
 
 
 MUTANTS = [
+    Mutant("expect-handled-only-with-body", REL, 'if self.flow.request.headers.get("expect", "").lower() == "100-continue":',
+           'if not event.end_stream and self.flow.request.headers.get("expect", "").lower() == "100-continue":', "R01.6"),
+    Mutant("expect-not-removed", REL, '            self.flow.request.headers.pop("expect")\n', '            pass\n', "R01.6"),
+    Mutant("framing-205-treated-as-bodyless", READ, "response.status_code in (204, 304)", "response.status_code in (204, 205, 304)", "R01.1"),
     Mutant("head-response-has-body", READ, '        if request.method.upper() == "HEAD":\n            return 0\n', "", "R01.1"),
     Mutant("304-has-body", READ, "if response.status_code in (204, 304):", "if response.status_code in (204,):", "R01.1"),
     Mutant("cl-before-te", READ, '    if te_str := headers.get("transfer-encoding"):', '    if (cl0 := headers.get("content-length")) and not response:\n        return validate.parse_content_length(cl0)\n    if te_str := headers.get("transfer-encoding"):', "R01.1"),
